@@ -41,6 +41,7 @@ Tol(chk, dt) ==
     [] chk = "grad_zero_slot" -> 0         \* the slot of a group gradient beyond the manifold dimension is exactly zero
     [] chk = "corr_gradient" -> 4096       \* C09: J'^T R' vs sum_i rho'(|R_i|^2) J_i^T R_i for the built-in kernels
     [] chk = "corr_ft_equal" -> 4096       \* C09: Triggs = FastTriggs where rho'' <= 0 or R_i = 0
+    [] chk = "inv_extreme" -> 64       \* C03: X @ Inv X = Inv X @ X = I, Inv(X).Act(X.Act(p)) = p for scales 2^+-30..2^+-60
     [] chk = "adj_lin"    -> 256       \* Adj / AdjT as matrices: generic floats vs conjugation of generators
     [] chk = "adjT_lin"   -> 256
     [] OTHER              -> 0
